@@ -20,6 +20,12 @@ class Dataset(StrEnum):
     TEST = 'test'
 
 
+class ModelA:
+    class Variant(Enum):      # same qualified name as ptasks.ModelA.Variant
+        SMALL = 1
+        LARGE = 2
+
+
 @labtech.task
 class Leaf:
     x: Any
